@@ -20,7 +20,9 @@
                                    whole rest of the buffer to the block (D17)      -> TRUE
      MagicTestInverted      TRUE : try_start_next_stream rejects the byte 0xFD it looks for (D14) -> FALSE
      ReaderChecksIndex      FALSE: the reader compares only the number of index records with the blocks it
-                                   decoded, not their sizes (group B's C04 finding)   -> TRUE *)
+                                   decoded, not their sizes (group B's C04 finding)   -> TRUE
+     EofPaddingChecked      FALSE: stream padding followed by the end of the input is accepted whatever its
+                                   length (group B's C04 / C05 finding)               -> TRUE *)
 EXTENDS Integers, Sequences, FiniteSets, TLC
 
 CONSTANTS
@@ -38,7 +40,7 @@ CONSTANTS
   Trailings,       \* kinds of trailing bytes after the last stream: subset of {"none","garbage"}
   Multis,          \* values of allow_multiple_streams explored: subset of BOOLEAN
   VliBase,         \* base of the multibyte integers (128 in the format; small in model checking)
-  IndexCountsHeader, EmptyInputWritesBlock, BlockLimitPerByte, MagicTestInverted, ReaderChecksIndex
+  IndexCountsHeader, EmptyInputWritesBlock, BlockLimitPerByte, MagicTestInverted, ReaderChecksIndex, EofPaddingChecked
 
 VARIABLES
   cfg,      \* options of the stream being written: [check, limit, dict, hsize, cz]
@@ -226,14 +228,15 @@ RIndex ==
              ELSE Fail
   /\ UNCHANGED <<cfg, ws, calls, file, streams, pads, trail, phase>>
 
-\* try_start_next_stream: zero bytes are skipped; end of input ends the file (whatever the number of
-\* padding bytes); a non-zero byte must start the stream magic, and then the padding must be a multiple of 4
+\* try_start_next_stream: zero bytes are skipped; end of input ends the file (the padding must be a multiple of 4,
+\* checked only with EofPaddingChecked); a non-zero byte must start the stream magic, and then the padding must be a
+\* multiple of 4
 RScan ==
   /\ phase = "read" /\ rd.st = "scan"
   /\ LET p  == rd.pos
          k  == IF Kind(p) = "StreamPad" THEN file[p].n ELSE 0
          q  == IF Kind(p) = "StreamPad" THEN p + 1 ELSE p
-     IN rd' = IF Kind(q) = "EOF" THEN [rd EXCEPT !.st = "eof", !.pos = q, !.bytes = @ + k]
+     IN rd' = IF Kind(q) = "EOF" THEN (IF EofPaddingChecked /\ k % 4 # 0 THEN Fail ELSE [rd EXCEPT !.st = "eof", !.pos = q, !.bytes = @ + k])
               ELSE IF Kind(q) = "SH" /\ ~MagicTestInverted /\ k % 4 = 0 /\ SHOk(file[q])
                 THEN [rd EXCEPT !.st = "blocks", !.pos = q + 1, !.bytes = @ + k + 12, !.check = file[q].check, !.blocks = 0, !.brecs = <<>>]
                 ELSE Fail
@@ -321,13 +324,13 @@ BlocksFull == phase = "env" => \A i \in 1..Len(streams) :
 
 Done == phase = "done"
 TotalUnits == SumSeq([i \in 1..Len(streams) |-> streams[i].units], 1)
-InteriorPadsOk == \A i \in 1..(Len(pads) - 1) : pads[i] % 4 = 0
+AllPadsOk == \A i \in 1..Len(pads) : pads[i] % 4 = 0
 \* C02: a single stream without trailing bytes decodes to what was written
 RoundTrip == (Done /\ Len(streams) = 1 /\ trail = "none" /\ pads[1] % 4 = 0) => (rd.st = "eof" /\ rd.out = TotalUnits)
 \* C12: concatenation
 Concat == Done =>
-  /\ (rd.multi /\ trail = "none" /\ InteriorPadsOk) => (rd.st = "eof" /\ rd.out = TotalUnits)
-  /\ (rd.multi /\ ~InteriorPadsOk) => rd.st = "err"                  \* malformed padding between streams is rejected
+  /\ (rd.multi /\ trail = "none" /\ AllPadsOk) => (rd.st = "eof" /\ rd.out = TotalUnits)
+  /\ (rd.multi /\ ~AllPadsOk) => rd.st = "err"                       \* malformed padding (between or after streams) is rejected
   /\ (rd.multi /\ trail = "garbage") => rd.st = "err"
   /\ ~rd.multi => (rd.st = "eof" /\ rd.out = streams[1].units)        \* stops after the first stream
 \* C16: a single-stream reader ends exactly behind the footer of the first stream
